@@ -270,6 +270,8 @@ int main(int argc, char** argv) {
                     for (size_t i = 0; i < fs.size(); ++i) out << " " << fs[i].to_ulong();
                     out << "\n";
                 }
+            } else if (cmd == "note") {
+                out << "o ok\n";
             } else if (cmd == "blockof") {
                 unsigned long n; is >> n;
                 int b = int(s.S->getBlockNumber(QuantumState(n)));
